@@ -210,7 +210,53 @@ func genRec(t *rapid.T) recCase {
 	return recCase{R: r}
 }
 
+// eachLongToken: the longest single tokens a record's text can contain. An SvcParam value is
+// printed as ONE quoted string with \DDD for every unprintable octet (four characters per octet,
+// up to ~260000 characters), key material as one base64 token, generic RDATA as one hex token of
+// up to 131070 characters.
+func eachLongToken(emit func(recCase)) {
+	sizes := []int{255, 256, 4096, 16384, 32767, 32768, 32769, 45000, 65000}
+	for _, typ := range []uint16{wm.TSVCB, wm.THTTPS} {
+		for _, key := range []uint16{65280, 7, 5, 1, 4, 6} {
+			for _, n := range sizes {
+				for _, fill := range []byte{0x00, 0xff, 'a', '"', '\\', ',', ' '} {
+					var d []byte
+					switch key {
+					case 1: // alpn: a list of ids of at most 255 octets each
+						for left := n; left > 1; {
+							k := min(left-1, 255)
+							d = append(append(d, byte(k)), bytes.Repeat([]byte{fill}, k)...)
+							left -= 1 + k
+						}
+					case 4:
+						d = bytes.Repeat([]byte{fill}, n/4*4)
+					case 6:
+						d = bytes.Repeat([]byte{fill, 1}, n/16*8)
+					default:
+						d = bytes.Repeat([]byte{fill}, n)
+					}
+					if (key == 4 || key == 6) && fill != 0x00 && fill != 'a' {
+						continue // address lists: the fill only changes the addresses
+					}
+					emit(recCase{R: wm.Rec{Name: wm.MustName("long.example."), Type: typ, Class: 1, TTL: 1, Fields: []wm.Field{
+						{K: wm.U16, U: 1}, {K: wm.NameU, N: wm.Name{}}, {K: wm.Params, Opts: []wm.Option{{Code: key, Data: d}}}}}})
+				}
+			}
+		}
+	}
+	for _, n := range []int{32767, 32768, 32769, 49151, 49152, 65000, 65535} {
+		for _, typ := range []uint16{65281, wm.TOPENPGPKEY, wm.TDHCID} {
+			emit(recCase{R: wm.Rec{Name: wm.MustName("long.example."), Type: typ, Class: 1, TTL: 1, Fields: []wm.Field{{K: wm.Rest, B: bytes.Repeat([]byte{0xA7}, n)}}}})
+		}
+		emit(recCase{R: wm.Rec{Name: wm.MustName("long.example."), Type: wm.TDNSKEY, Class: 1, TTL: 1, Fields: []wm.Field{
+			{K: wm.U16, U: 257}, {K: wm.U8, U: 3}, {K: wm.U8, U: 8}, {K: wm.Rest, B: bytes.Repeat([]byte{0xA7}, n-4)}}}})
+		emit(recCase{R: wm.Rec{Name: wm.MustName("long.example."), Type: wm.TTLSA, Class: 1, TTL: 1, Fields: []wm.Field{
+			{K: wm.U8, U: 3}, {K: wm.U8, U: 1}, {K: wm.U8, U: 1}, {K: wm.Rest, B: bytes.Repeat([]byte{0xA7}, n-3)}}}})
+	}
+}
+
 func init() {
+	pbt.RegisterEnum(pbt.Enum[recCase]{Name: "longest-tokens", Exhaustive: true, Each: eachLongToken, Check: checkRec})
 	pbt.Register(pbt.Sub[recCase]{Name: "text-roundtrip", Weight: 30, Gen: genRec, Check: checkRec})
 }
 
